@@ -207,6 +207,7 @@ func c13Extras(env *Env, tape *sim.Tape) *CaseOut {
 		userBefore := snap()
 		var tasks [][]*Op
 		var all []*Op
+		streaming := false
 		for ti := 0; ti < ntasks; ti++ {
 			var ops []*Op
 			for oi := 0; oi < 1+tape.Draw(2); oi++ {
@@ -222,12 +223,26 @@ func c13Extras(env *Env, tape *sim.Tape) *CaseOut {
 				}
 				op := &Op{Entry: EPlain, MT: mtc, In: data, NoYield: true}
 				op.W, op.R = sim.NewSimWriter(nil), sim.NewSimReader(nil, data)
+				if mtc == "text/x-cmdfile" && tape.Draw(3) == 0 {
+					// a streaming call: the Writer stays open between its producer's writes (yield
+					// points) while other tasks call the same command; nobody may have to wait
+					// for it ("no call blocks on another"). File arguments only: with stdin/stdout
+					// the child would wait for goroutines that are parked for the scheduler.
+					op.Entry, op.NoYield = EWriter, false
+					op.WriteChunks = []int{len(data) / 2}
+					streaming = true
+				}
 				ops = append(ops, op)
 				all = append(all, op)
 			}
 			tasks = append(tasks, ops)
 		}
+		if streaming {
+			out.stat("extras_command_minifier_cases_with_an_open_writer", 1)
+		}
+		FlagLockWait = true
 		sv, st := RunTasks(env.T, tape, m, tasks, stick, 100000, false)
+		FlagLockWait = false
 		out.stat("extras_command_minifier_calls", int64(len(all)))
 		out.TraceHash = st.TraceHash
 		if sv != nil {
@@ -254,6 +269,9 @@ func c13Extras(env *Env, tape *sim.Tape) *CaseOut {
 					return out
 				}
 				continue
+			}
+			if op.Entry == EWriter && op.Err == nil {
+				op.Err = op.CloseErr
 			}
 			if op.Err != nil || !bytes.Equal(op.Out, op.In) {
 				out.V = &sim.Violation{Kind: "output-differs", Site: "AddCmd:" + op.MT,
